@@ -21,18 +21,27 @@ for d in sorted(glob.glob("/verif/seeded/*")):
         c = "tests only" if conf["confirmed_tests_only"] else "NO (tests)"
     else:
         c = "-"
-    # latest result per (check, tier)
-    latest = {}
-    for r in res:
-        latest[(r["check"], r["tier"])] = r
-    cells = []
-    for (chk, tier), r in sorted(latest.items()):
+    # first and latest result per (check, tier)
+    def verdict(r, sigs=True):
         if r["exit"] == 1:
-            v = "CAUGHT (" + "; ".join(s[:70] for s in r["signatures"][:2]) + ")"
-        elif r["exit"] == 0:
-            v = "missed"
-        else:
-            v = f"inconclusive (exit {r['exit']})"
+            if not sigs:
+                return "caught"
+            return "CAUGHT (" + "; ".join(s[:60] for s in r["signatures"][:2]) + ")"
+        if r["exit"] == 0:
+            return "missed"
+        return f"inconclusive (exit {r['exit']}, machine overloaded)"
+    first, latest = {}, {}
+    for r in res:
+        k = (r["check"], r["tier"])
+        first.setdefault(k, r)
+        latest[k] = r
+    cells = []
+    for k, r in sorted(latest.items()):
+        chk, tier = k
+        v = verdict(r)
+        f = first[k]
+        if f is not r and verdict(f, False) != verdict(r, False):
+            v = f"first run {verdict(f, False)}; after strengthening {v}"
         cells.append(f"{chk} {tier}: {v}")
     summary = meta.get("summary", "").replace("\n", " ").replace("|", "/")
     if len(summary) > 230:
